@@ -248,4 +248,6 @@ package types
 //@ (define-fun wrkSumFee.def ((ms (Array Int Iface)) (n Int) (p wrkchain.Params)) Int
 //@   (ite (<= n 0) 0 (+ (wrkSumFee ms (- n 1) p) (wrkFeeOf (select ms (- n 1)) p))))
 //@ (define-fun wrkTx ((t Iface)) Bool (exists ((j Int)) (and (<= 0 j) (< j (sl.len (txMsgs t))) (isWrkMsg (select (sl.arr (txMsgs t)) j)))))
+//@ ; the transaction executes a wrkchain message, directly or wrapped in a message that carries other messages (C06: "however they are wrapped")
+//@ (define-fun wrkTxDeep ((t Iface)) Bool (exists ((j Int)) (and (<= 0 j) (< j (sl.len (txMsgs t))) (or (isWrkMsg (select (sl.arr (txMsgs t)) j)) (exists ((i Int)) (and (<= 0 i) (< i (sl.len (nestedMsgs (select (sl.arr (txMsgs t)) j)))) (isWrkMsg (select (sl.arr (nestedMsgs (select (sl.arr (txMsgs t)) j))) i))))))))
 //@ end
